@@ -102,46 +102,86 @@ fn verif_rtt_update_bounds_32() {
     update_bounds(u32::MAX as u64);
 }
 
-fn pto_and_threshold(maxns: u64) {
+// RFC 9002 6.2.1 in the implementation's own unit (whole microseconds):
+// PTO = (smoothed + max(4 rttvar, granularity) [+ max_ack_delay]) * backoff; hence never below the
+// granularity and doubling with each consecutive expiry.
+fn pto_formula(maxns: u64) {
     let est = any_est(maxns);
     let space = if kani::any() {
         PacketNumberSpace::Initial
     } else {
         PacketNumberSpace::ApplicationData
     };
-    let p1 = est.pto_period(1, space);
-    let p2 = est.pto_period(2, space);
-    let p4 = est.pto_period(4, space);
-    // never below the timer granularity; doubles with each consecutive expiry
-    assert!(p1 >= K_GRANULARITY);
-    assert!(p2 == p1 * 2);
-    assert!(p4 == p2 * 2);
-    // RFC 9002 6.2.1: smoothed + max(4 rttvar, granularity) [+ max_ack_delay], in microseconds
-    let us = |d: Duration| d.as_nanos() as u64 / 1000;
-    let mut expect = us(est.smoothed_rtt) + core::cmp::max(4 * us(est.rttvar), 1000);
+    let us = |d: Duration| d.as_micros() as u64;
+    let mut expect = us(est.smoothed_rtt) + core::cmp::max(us(est.rttvar_4x()), 1000);
     if space.is_application_data() {
         expect += us(est.max_ack_delay);
     }
-    assert!(us(p1) == expect && p1.subsec_nanos() % 1000 == 0);
-    // RFC 9002 6.1.2: 9/8 * max(smoothed, latest), at least the granularity
+    let b1 = est.calculate_base_pto_micros(1, space);
+    let b2 = est.calculate_base_pto_micros(2, space);
+    let b4 = est.calculate_base_pto_micros(4, space);
+    assert!(b1 == expect);
+    assert!(b2 == 2 * b1 && b4 == 2 * b2);
+    assert!(b1 >= 1000);
+    kani::cover!(space.is_application_data() && us(est.max_ack_delay) > 0, "max_ack_delay included");
+    kani::cover!(us(est.rttvar_4x()) < 1000, "rttvar term clamped to granularity");
+}
+
+#[cfg_attr(kani, kani::proof)]
+#[cfg_attr(kani, kani::unwind(2))]
+fn verif_rtt_pto_formula_us16() {
+    pto_formula(0);
+}
+
+#[cfg_attr(kani, kani::proof)]
+#[cfg_attr(kani, kani::unwind(2))]
+fn verif_rtt_pto_formula_32() {
+    pto_formula(u32::MAX as u64);
+}
+
+// the 4*rttvar term is exactly four times rttvar (whole microseconds), and the loss-time threshold
+// is RFC 9002 6.1.2: 9/8 * max(smoothed, latest), at least the granularity. Both compared as
+// Durations built from the same integers (re-inverting Duration::from_nanos/from_micros costs the
+// SAT solver a 64-bit division proof and says nothing about s2n-quic).
+fn threshold_formula(maxns: u64) {
+    let est = any_est(maxns);
+    let us = |d: Duration| d.as_micros() as u64;
+    assert!(est.rttvar_4x() == Duration::from_micros(4 * us(est.rttvar)));
     let t = est.loss_time_threshold();
-    assert!(t >= K_GRANULARITY);
-    let m = est.smoothed_rtt.max(est.latest_rtt).as_nanos() as u64;
-    assert!(t.as_nanos() as u64 == (m + m / 8).max(1_000_000));
-    kani::cover!(t > K_GRANULARITY, "threshold above granularity");
-    kani::cover!(t == K_GRANULARITY, "threshold clamped to granularity");
+    let m = core::cmp::max(est.smoothed_rtt.as_nanos() as u64, est.latest_rtt.as_nanos() as u64);
+    assert!(t == Duration::from_nanos((m + m / 8).max(1_000_000)));
+    kani::cover!(m + m / 8 > 1_000_000, "threshold above granularity");
+    kani::cover!(m + m / 8 < 1_000_000, "threshold clamped to granularity");
 }
 
 #[cfg_attr(kani, kani::proof)]
 #[cfg_attr(kani, kani::unwind(2))]
-fn verif_rtt_pto_24() {
-    pto_and_threshold((1 << 24) - 1);
+fn verif_rtt_threshold_us16() {
+    threshold_formula(0);
 }
 
 #[cfg_attr(kani, kani::proof)]
 #[cfg_attr(kani, kani::unwind(2))]
-fn verif_rtt_pto_32() {
-    pto_and_threshold(u32::MAX as u64);
+fn verif_rtt_threshold_32() {
+    threshold_formula(u32::MAX as u64);
+}
+
+// pto_period() is the base PTO clamped to the granularity (thorough: equality of two Durations)
+#[cfg_attr(kani, kani::proof)]
+#[cfg_attr(kani, kani::unwind(2))]
+fn verif_rtt_pto_period_us16() {
+    let est = any_est(0);
+    let space = if kani::any() {
+        PacketNumberSpace::Initial
+    } else {
+        PacketNumberSpace::ApplicationData
+    };
+    let b1 = est.calculate_base_pto_micros(1, space);
+    let p1 = est.pto_period(1, space);
+    let p2 = est.pto_period(2, space);
+    assert!(p1 == Duration::from_micros(b1.max(1000)));
+    assert!(p2 == Duration::from_micros((2 * b1).max(1000)));
+    kani::cover!(true, "pto period computed");
 }
 
 // quick: microsecond-granular durations <= 65.5 ms
@@ -151,12 +191,6 @@ fn verif_rtt_update_bounds_us16() {
     update_bounds(0);
 }
 
-#[cfg_attr(kani, kani::proof)]
-#[cfg_attr(kani, kani::unwind(2))]
-fn verif_rtt_pto_us16() {
-    pto_and_threshold(0);
-}
-
 // ---- generated by tools/fixup.py: native replay entry ----
 #[cfg(not(kani))]
 #[test]
@@ -164,9 +198,11 @@ fn verif_replay() {
     kani::replay(&[
         ("verif_rtt_update_bounds_24", verif_rtt_update_bounds_24),
         ("verif_rtt_update_bounds_32", verif_rtt_update_bounds_32),
-        ("verif_rtt_pto_24", verif_rtt_pto_24),
-        ("verif_rtt_pto_32", verif_rtt_pto_32),
+        ("verif_rtt_pto_formula_us16", verif_rtt_pto_formula_us16),
+        ("verif_rtt_pto_formula_32", verif_rtt_pto_formula_32),
+        ("verif_rtt_threshold_us16", verif_rtt_threshold_us16),
+        ("verif_rtt_threshold_32", verif_rtt_threshold_32),
+        ("verif_rtt_pto_period_us16", verif_rtt_pto_period_us16),
         ("verif_rtt_update_bounds_us16", verif_rtt_update_bounds_us16),
-        ("verif_rtt_pto_us16", verif_rtt_pto_us16),
     ]);
 }
